@@ -101,7 +101,7 @@ def _all_cases(ctx):
     cases = [k['witness'] for k in fixed_witnesses()]
     ctx.count('corpus (fixed findings)', len(cases))
     cases += list(grid_cases(rng))
-    n = ctx.budget(1200, 16000)
+    n = ctx.budget(1000, 16000)
     cases += [U.gen_case(rng) for _ in range(n)]
     return cases
 
@@ -169,18 +169,24 @@ def correspond(ctx, drivers):
         if r['dirs'] and len(r['dirs'][-1]) < 3000 and c['ops'][-3][0] == 'flush' and not r['fails']:
             for m in U.mutants(rng, r['dirs'][-1], 1):
                 planted.append({'single': c['single'], 'ops': c['ops'][:-2] + [['plant', m.hex()], ['open', 'r', None], ['check'],
-                                                                            ['open', 'a', 16], ['check']]})
+                                                                            ['open', 'a', 16], ['check'],
+                                                                            ['add', U.spell('t', 'zz', 'new', 'e'), ['g', 3, 40], 1],
+                                                                            ['flush'], ['check'], ['open', 'r', None], ['check']]})
     pres = [U.run_case(c, oracle=False) for c in planted]
     preps = drv.batch([{'op': 'run', **c} for c in planted], timeout=900)
     for c, r, m in zip(planted, pres, preps):
         ctx.case(_summary(c), nontrivial=True, sample_every=211)
         ctx.traces_vs_impl += 1
         ctx.count('history continued on a damaged directory file')
-        last = r['obs'][-4]
+        pi = next(i for i, o in enumerate(c['ops']) if o[0] == 'plant')
+        last = r['obs'][pi + 1]
+        chk = r['obs'][pi + 2]
+        fl = r['obs'][pi + 6]
+        ctx.count('  damaged: reopened a, add, write_dirfile -> ' + str(fl))
         ctx.count('  damaged: reopen -> ' + (last if isinstance(last, str) else 'ok'))
-        if isinstance(r['obs'][-3], dict) and r['obs'][-3].get('verify') is not True:
-            ctx.count(f"  damaged: verify_all -> {r['obs'][-3].get('verify')}")
-        if isinstance(r['obs'][-3], dict) and any(isinstance(x, str) for x in r['obs'][-3].get('reads', [])):
+        if isinstance(chk, dict) and chk.get('verify') not in (True, None):
+            ctx.count(f"  damaged: verify_all -> {chk.get('verify')}")
+        if isinstance(chk, dict) and any(isinstance(x, str) for x in chk.get('reads', [])):
             ctx.count("  damaged: a read() raised")
         if 'error' in m or r['obs'] != m.get('obs'):
             n = next((i for i, (a, b) in enumerate(zip(r['obs'], m.get('obs', []))) if a != b), -1)
